@@ -151,7 +151,83 @@ def build(uni):
         "chunking the outer loop does not change whether the inner loop can "
         "be chunked; the final LoopSwapTrans.apply on the re-arranged nest "
         "is not covered")
-    return [cv, ca]
+    return [cv, ca] + build_omp_loop(uni)
+
+
+def build_omp_loop(uni):
+    """OMPLoopTrans.apply: whatever raises, the routine's symbol table has
+    not been touched (the reproducible-reduction symbols are only added
+    after validation has accepted the node)"""
+    OMPL = "psyir/transformations/omp_loop_trans.py"
+    uni.fields.update({"$table_version": "int"})
+    WORLD = z3.Const("the_tables", Ref)
+    VALIDOK = z3.Function("omp_loop_validate_accepts", Ref, BOOL)
+    HASTAG = z3.Function("has_tag", z3.StringSort(), BOOL)
+    uni.axioms.append(WORLD != NULLC)
+
+    def h_validate(it, selfv, args, kw, st, fr):
+        if it.dec.branch(st, VALIDOK(args[0].e)):
+            return NONE
+        raise PyRaise(VExc("TransformationError"))
+
+    def h_lookup_tag(it, selfv, args, kw, st, fr):
+        if it.dec.branch(st, HASTAG(it.to_z3(args[0]))):
+            return VRef(z3.Const("some_symbol", Ref), "DataSymbol")
+        raise PyRaise(VExc("KeyError"))
+
+    def h_new_symbol(it, selfv, args, kw, st, fr):
+        st.write("$table_version", WORLD,
+                 st.read("$table_version", WORLD, "int") + 1, "int")
+        return VRef(z3.Const("new_symbol", Ref), "DataSymbol")
+
+    def h_super_apply(it, selfv, args, kw, st, fr):
+        # ParallelLoopTrans.apply validates first and refuses exactly what
+        # validate refuses: after a successful validate it does not raise
+        if it.dec.branch(st, VALIDOK(args[0].e)):
+            st.write("$table_version", WORLD,
+                     st.read("$table_version", WORLD, "int") + 1, "int")
+            return NONE
+        raise PyRaise(VExc("TransformationError"))
+    from pyvc.values import VInt as _VInt
+    uni.method_hooks.update({
+        "OMPLoopTrans.validate": h_validate,
+        "ParallelLoopTrans.apply": h_super_apply,
+        "SymbolTable.lookup_with_tag": h_lookup_tag,
+        "SymbolTable.new_symbol": h_new_symbol,
+        "Node.ancestor": lambda it, s, a, k, st, fr: VRef(s.e, "Routine"),
+        "Loop.ancestor": lambda it, s, a, k, st, fr: VRef(s.e, "Routine"),
+        "Routine.symbol_table": lambda it, s, a, k, st, fr: VRef(
+            s.e, "SymbolTable"),
+        "Config.get": lambda it, s, a, k, st, fr: VRef(
+            z3.Const("the_config", Ref), "Config"),
+        "Config.reproducible_reductions":
+            lambda it, s, a, k, st, fr: VBool(
+                z3.Const("config_reprod", BOOL)),
+    })
+    uni.axioms.append(z3.Const("the_config", Ref) != NULLC)
+    uni.consts["TABLES"] = VFunc("hook", fn=lambda it, a, k, st, fr: _VInt(
+        st.read("$table_version", WORLD, "int")))
+    uni.consts["INTEGER_TYPE"] = VRef(z3.Const("integer_type", Ref), "Obj")
+    c = Contract(
+        f"{OMPL}:OMPLoopTrans.apply",
+        params={"self": "OMPLoopTrans", "node": "Loop",
+                "options": "dict[str,bool]"},
+        requires=[("node", "node is not None")],
+        ensures=[("applied", "TABLES() >= old(TABLES())")],
+        raises={"TransformationError": None},
+        on_raise=[("symbol_tables_untouched", "TABLES() == old(TABLES())")],
+        modifies=["$table_version", "_reprod", "$dom.str", "$map.str.bool",
+                  "$card"],
+        covers=[("applies", "TABLES() > old(TABLES())"),
+                ("raise:TransformationError", "True")])
+    uni.fields.update({"_reprod": "bool"})
+    uni.contracts["OMPLoopTrans.apply:top"] = c
+    uni.note_assumption(
+        "OMPLoopTrans.apply: validate / ParallelLoopTrans.apply through an "
+        "uninterpreted acceptance predicate (the super apply refuses exactly "
+        "what validate refuses); every SymbolTable.new_symbol and the super "
+        "apply bump a ghost table version; lookup_with_tag is pure")
+    return [c]
 
 
 TRUSTED = [
@@ -200,7 +276,9 @@ def extra(uni, tier, seed):
 
 def replay(name, ob, model, uni):
     from realise import C26 as R
-    n_ok, bad = R.summary_parallel(only=["LoopTiling2DTrans"])
+    only = ["OMPLoopTrans"] if "OMPLoopTrans" in name else \
+        ["LoopTiling2DTrans"]
+    n_ok, bad = R.summary_parallel(only=only)
     for cname, rows in bad.items():
         r = rows[0]
         return {"confirmed": True, "transformation": cname,
